@@ -215,12 +215,21 @@ def h_grid_flat(ctx, n):
     ctx.claim('scalar_n', np.array_equal(teneva.grid_flat(4), np.arange(4)))
 
 
-def h_cdf(ctx, m, reuse=False):
+def h_cdf(ctx, m, reuse=False, int_sample=None, as_list=False):
     """reuse: the caller overwrites its sample buffer with the next batch after the
-    getter was built; the getter still describes the sample it was built from."""
-    xs = vec(ctx, 'x', m)
+    getter was built; the getter still describes the sample it was built from.
+    int_sample: the sample is a concrete list / array of integers (integer dtype),
+    the query stays a symbolic real (negative and fractional values included)."""
     z = ctx.real('z')
-    buf = xs.copy()
+    if int_sample is not None:
+        m = len(int_sample)
+        xs = [int(v) for v in int_sample]
+        buf = list(xs) if as_list else np.array(xs)
+        ctx.assume(ctx.gt(z, min(xs) - 2))
+        ctx.assume(ctx.lt(z, max(xs) + 2))
+    else:
+        xs = vec(ctx, 'x', m)
+        buf = xs.copy()
     cdf = teneva.cdf_getter(buf)
     if reuse:
         buf[...] = vec(ctx, 'w', m)
@@ -307,6 +316,8 @@ def instances(tier):
         out.append({'func': 'h_cdf', 'params': {'m': m}})
     for m in ([2] if quick else [2, 3]):
         out.append({'func': 'h_cdf', 'params': {'m': m, 'reuse': True}})
+    for smp, as_list in (([0, 1, 2, 3], True), ([0, 0, 1, 5, -2], False), ([-3, -1], False)):
+        out.append({'func': 'h_cdf', 'params': {'m': len(smp), 'int_sample': smp, 'as_list': as_list}})
     return out
 
 
